@@ -109,6 +109,12 @@ def fmt_value(v, style):
         return "%.10E" % v
     if style == "int":
         return "%d" % int(round(v)) if abs(v) < 1e15 else "%g" % v
+    if style == "plus":
+        return "%+.6g" % v
+    if style == "g17":
+        return "%.17g" % v
+    if style == "f12":
+        return "%.12f" % v if abs(v) < 1e12 else "%.17g" % v
     raise ValueError(style)
 
 
@@ -134,7 +140,7 @@ def gen_grid(tape):
     else:
         pool = rs.uniform(-100, 100, 3)
         vals = pool[rs.randint(0, 3, (nr, nc))]
-    style = tape.pick(["repr", "g", "f3", "e", "E10", "int"], "format")
+    style = tape.pick(["repr", "g", "f3", "e", "E10", "int", "plus", "g17", "f12"], "format")
     rows = [[fmt_value(v, style) for v in row] for row in vals]
     # blanks
     nblank = tape.weighted([(0, 4), (1, 2), (2, 1), (-1, 1)], "nblank")
